@@ -29,6 +29,8 @@
 //	                  dial_options.authority (- = not configured: the authority is the address dialled);
 //	                  dt=<ms> = dial_options.timeout.  The observation then ends with  auth=<a>+<a>…  (distinct
 //	                  values, hex; "target" / "side" = the address of the target / of the reflection side-car)
+//	      tls=1       the gun option tls: the target (and the reflection side-car) of this case are served behind TLS
+//	                  with a self-signed certificate; nothing else changes — what arrives is specified as without it
 //	scen <ninst>[r] <timeout_ms> <order> <users> <calls> <scenarios> [rm=<meta>] [fl=<plan>]   (r: reflect_port as above)
 //	    order     = instance index per shot (comma list); shot j: instance order[j] acquires the
 //	                next scenario ammo from the real grpc/scenario provider and shoots it
@@ -101,6 +103,9 @@ func (r *recAggr) Report(s core.Sample) {
 var (
 	srv     *a20.Srv
 	side    *a20.Srv // reflection side-car on another port
+	tlsSrv  *a20.Srv // the same pair behind TLS (cases with tls=1)
+	tlsSide *a20.Srv
+	useTLS  bool
 	fs      = afero.NewMemMapFs()
 	fileSeq int
 )
@@ -336,6 +341,7 @@ func gunConf(shared bool, clients int, timeoutMs int, reflect bool) grpcgun.GunC
 		conf.ReflectPort = sidePort()
 	}
 	conf.Timeout = time.Duration(timeoutMs) * time.Millisecond
+	conf.TLS = useTLS
 	conf.SharedClient.Enabled = shared
 	conf.SharedClient.ClientNumber = clients
 	return conf
@@ -541,6 +547,7 @@ func runScen(f []string) string {
 	gconf := grpcscen.DefaultGunConfig()
 	gconf.Target = srv.Addr
 	gconf.Timeout = time.Duration(tmo) * time.Millisecond
+	gconf.TLS = useTLS
 	if reflect {
 		gconf.ReflectPort = sidePort()
 	}
@@ -610,6 +617,17 @@ func runCase(c string) (res string) {
 		}
 	}()
 	f := strings.Split(c, " ")
+	useTLS = false
+	for _, x := range f {
+		if x == "tls=1" {
+			useTLS = true
+		}
+	}
+	if useTLS {
+		// this case talks to the TLS pair of servers
+		srv, side, tlsSrv, tlsSide = tlsSrv, tlsSide, srv, side
+		defer func() { srv, side, tlsSrv, tlsSide = tlsSrv, tlsSide, srv, side }()
+	}
 	switch f[0] {
 	case "json":
 		return runJSON(f)
@@ -632,6 +650,14 @@ func main() {
 			panic(err)
 		}
 		defer side.Stop()
+		if tlsSrv, err = a20.StartTLS(); err != nil {
+			panic(err)
+		}
+		defer tlsSrv.Stop()
+		if tlsSide, err = a20.StartTLS(); err != nil {
+			panic(err)
+		}
+		defer tlsSide.Stop()
 		out := make([]string, len(cases))
 		for i, c := range cases {
 			out[i] = runCase(c)
